@@ -4339,7 +4339,7 @@ class Wallet(object):
                                               random_output_order, replace_by_fee)
         transaction.sign(priv_keys)
         # Calculate exact fees and update change output if necessary
-        if fee is None and transaction.fee_per_kb and transaction.change:
+        if (fee is None or isinstance(fee, str)) and transaction.fee_per_kb and transaction.change:
             fee_exact = transaction.calculate_fee()
             # Recreate transaction if fee estimation more than 10% off
             if fee_exact != self.network.fee_min and fee_exact != self.network.fee_max and \
